@@ -238,7 +238,7 @@ func (p *MetadataPersister) GetHeaderChildren(ctx context.Context, name string) 
 	name = p.getSanitizedPath(ctx, name)
 
 	headers, err := models.Headers(
-		qm.Where(models.HeaderColumns.Name+" like ?", strings.TrimSuffix(name, "/")+"/%"), // Prevent double trailing slashes
+		qm.Where("instr("+models.HeaderColumns.Name+", ?) = 1", strings.TrimSuffix(name, "/")+"/"), // Exact, case-sensitive prefix match; prevent double trailing slashes
 		qm.Where(models.HeaderColumns.Deleted+" != 1"),
 	).All(ctx, p.sqlite.DB)
 	if err != nil {
@@ -303,7 +303,7 @@ func (p *MetadataPersister) GetHeaderDirectChildren(ctx context.Context, name st
 			`select %v, %v, %v, %v, %v, %v, %v, %v, %v, %v, %v, %v, %v, %v, %v, %v, %v, %v, %v, %v, %v,
     length(replace(%v, ?, '')) - length(replace(replace(%v, ?, ''), '/', '')) as depth
 from %v
-where %v like ?
+where instr(%v, ?) = 1
     and (
         depth = ?
         or (
@@ -350,7 +350,7 @@ where %v like ?
 				query+`limit ?`,
 				prefix,
 				prefix,
-				prefix+"%",
+				prefix,
 				rootDepth,
 				rootDepth+1,
 				limit+1, // +1 to accomodate the parent directory if it exists
@@ -366,7 +366,7 @@ where %v like ?
 				query,
 				prefix,
 				prefix,
-				prefix+"%",
+				prefix,
 				rootDepth,
 				rootDepth+1,
 			).Bind(ctx, p.sqlite.DB, &headers); err != nil {
